@@ -717,6 +717,17 @@ class Gen:
         if self.p.invariants and self.b(0.5):
             for _ in range(self.i(1, 2)):
                 traj.append(["always", self.bool_expr(top, self.i(0, 2))])
+            if self.p.nested_fluent_args and self.b(0.5):
+                # an invariant that reaches a ground fluent only through a nested fluent argument, safe(at):
+                # which ground instance it constrains depends on the state
+                objfl = [f for f in self.fluents if f["type"] != "bool" and f["type"][0] == "user" and not f["params"]]
+                for g_ in objfl:
+                    cands = [f for f in self.fluents if f["type"] == "bool" and len(f["params"]) == 1 and f["params"][0][1] != "bool"
+                             and f["params"][0][1][0] == "user" and g_["type"][1] in self.subtypes(f["params"][0][1][1])]
+                    if cands:
+                        atom = ["fl", self.pick(cands)["name"], ["fl", g_["name"]]]
+                        traj.append(["always", ["not", atom] if self.b(0.5) else atom])
+                        break
         if self.p.traj and self.b(0.7):
             for _ in range(self.i(1, 2)):
                 traj.append(self.gen_traj(top))
